@@ -164,7 +164,10 @@ def _mpe_steps(frame, k, pre, it):
 @register
 class FDD_mpe(Contract):
     qualname = "pyoma2.functions.fdd.FDD_mpe"
-    props = ("C06",)
+    # C08's last clause ("every reported mode shape has its largest-magnitude component equal to 1") is carried, for FDD / EFDD / FSDD, by
+    # this function: its result equals the specification (post obligations) and the specification's pivot component is 1 (lemma)
+    props = ("C06", "C08")
+    prop_clauses = {"C08": lambda oid: "largest-magnitude component equals 1" in oid or "/post.result[1]" in oid or "inv.loop0" in oid}
     generic_replay = False
     bounded_driver = {"driver": "c06_fdd", "inputs": {}}
     loops = {0: LoopSpec(_mpe_loop, after_body=_mpe_steps)}
